@@ -195,7 +195,45 @@ def _ensure_scope(tree, path):
     return node
 
 
+def exhaustive(tier):
+    """Included files over a sweep of sizes (formats with a length prefix / significant first bytes make the first bytes of the
+    included file vary with its size), at the root and in a nested scope."""
+    top = 300 if tier == "quick" else 700
+    for fmt in trees.FORMATS:
+        step = 1 if fmt == "bson" or tier != "quick" else 11
+        for n in range(0, top, step):
+            yield {"mode": "include-size", "fmt": fmt, "n": n, "scope": "root" if n % 2 == 0 else "nested"}
+
+
+def _include_size_case(case, R):
+    cc = sandbox._state["cc"]
+    fmt, n = case["fmt"], case["n"]
+    R.label("mode:include-size", "include-size:" + fmt)
+    with sandbox.CaseDir() as d:
+        schema = cc.Schema(dynamic=True)
+        schema.include = cc.IncludeField(startdir=d)
+        schema.sub = cc.Schema(dynamic=True)
+        schema.sub.include = cc.IncludeField(startdir=d)
+        formatter = cc.ConfigFormat.get(fmt)
+        dummy = schema()
+        child = {"text": "x" * n, "n": n}
+        with open(os.path.join(d, "child." + fmt), "wb") as fp:
+            fp.write(formatter.dumps(dummy, child))
+        base = {"a": 1, "include": "child." + fmt} if case["scope"] == "root" else {"a": 1, "sub": {"include": "child." + fmt}}
+        cfg = schema()
+        try:
+            cfg.loads(formatter.dumps(dummy, base), fmt)
+            got = cfg if case["scope"] == "root" else cfg.sub
+            ok, err = (got.text == child["text"] and got.n == n), None
+        except Exception as exc:
+            ok, err = False, exc
+        R.check(ok, "equivalence", "include-size:" + fmt, lambda: "an included %s file holding a %d-character string was not merged as it is (%r)" % (fmt, n, err))
+        R.nontrivial = n % 16 == 11
+
+
 def run_case(case, R):
+    if case.get("mode") == "include-size":
+        return _include_size_case(case, R)
     cc = sandbox._state["cc"]
     mode = case["mode"]
     R.label("mode:" + mode)
